@@ -935,7 +935,66 @@ OUTSIDE = ('dunder attributes of the caught exception (__cause__, __suppress_con
            '(the body runs outside the Gin wrapper); recursion deeper than 100 (thorough tier: 200) configurable calls '
            '(interpreter recursion limit); exception classes whose __new__ returns an object of another class')
 
+# ---- two DIFFERENT exception classes with the same module and qualified name (round e seed C17-e: a cache of
+#      proxy classes keyed by the name of the class) --------------------------------------------------------------
+def _make_twin(tag):
+  class Twin(Exception):
+    """one of two unrelated classes that share __module__ and __qualname__ (a class factory called twice)"""
+    TAG = tag
+
+    def __init__(self, what, n):
+      super().__init__(what, n)
+      self.n = n
+  return Twin
+
+
+TWINS = [_make_twin('first'), _make_twin('second')]
+
+
+def c17_twins(first: int, how: int, n: int) -> bool:
+  """
+  pre: 0 <= first < 2 and 0 <= how < 5
+  """
+  first, how = rt.pick(first, 2), rt.pick(how, 5)
+  rt.sig(('twins', first, how), nontrivial=True)
+  world.fresh()
+  order = [TWINS[first], TWINS[1 - first]]
+  for k, cls in enumerate(order):
+    other = order[1 - k]
+    orig = cls('went wrong', n + k)
+    world.RAISE[0] = orig
+    caught = None
+    try:
+      trigger(how)
+    except Exception as e:   # noqa
+      caught = e
+    if caught is None:
+      return rt.no('nothing raised')
+    if not isinstance(caught, cls) or isinstance(caught, other):
+      with rt.native():
+        return rt.no('raised %s (TAG %s), arrived as an instance of the class with TAG %s' % (
+            cls.__qualname__, cls.TAG, getattr(type(caught), 'TAG', '?')))
+    try:
+      raise caught
+    except other:
+      return rt.no('caught by the except clause of the OTHER class of that name')
+    except cls:
+      pass
+    if caught.TAG != cls.TAG or not rt.same('n', caught.n, n + k) or not rt.same('args', caught.args[1], n + k):
+      return rt.no('attributes of the second twin')
+  return True
+
+
 HARNESSES = {
+    'c17_twins': dict(
+        fn='c17_twins',
+        anchors=['gin.utils:augment_exception_message_and_reraise'],
+        smoke=[dict(first=0, how=0, n=1), dict(first=1, how=2, n=0), dict(first=0, how=4, n=3)],
+        tiers={'quick': dict(split=dict(first=[0, 1]), budget_s=60),
+               'thorough': dict(split=dict(first=[0, 1]), budget_s=60)},
+        bounds='two unrelated exception classes that share __module__ and __qualname__ (a class factory called '
+               'twice), raised one after the other (either order) in 5 ways; each must arrive as an instance of ITS '
+               'class, be caught by its own except clause only, with its own attributes (payload: all ints)'),
     'c17_missing_positional': dict(
         fn='c17_missing_positional',
         anchors=['gin.config:gin_wrapper', 'gin.utils:augment_exception_message_and_reraise'],
